@@ -700,6 +700,10 @@ def gen_case(seed, index, tokens=False):
 # regression / targeted inputs that always run first (minimal reproductions of every defect found and of
 # the few lines random generation reaches rarely)
 FIXED_CASES = [
+    # witnesses of repaired deviations (afc19e8 special category, 0b01e4c feDropShadow): must agree with the WHATWG Spec now
+    ("<b><main></b>", None, False, True), ("<b><summary></b>", None, False, True), ("<b><figcaption></b>", None, False, True),
+    ("<b><hgroup></b>", None, False, True), ("<svg><desc><b></svg>x", None, False, True), ("<svg><fedropshadow>", None, False, True),
+    ("<math><mi><b></math>x", None, False, True), ("<li><main><li>", None, False, True),
     ("<head></head><html a=1>", None, False, True),                       # AfterHeadPhase.startTagHtml
     ("<body a=1 b=2><body a=3 c=4>", None, False, True),                   # attribute already present
     ("<html a=1><html a=2 b=3>", None, False, True),
